@@ -45,6 +45,21 @@ CHECKS = {
             "Sound domain: h relative to the model's jump scale so that each half-axis has >= 2 states, "
             "two-sided jump laws, thresholds inside (l,-h); documented ValueError rejections are counted as "
             "rejected, not as passes."),
+    "C01": ("3/C01",
+            "Hypothesis-generated chains (model x grid constructor x refinements x sampling method); oracle = "
+            "quadrature of the model density per reference midpoint cell, harness re-implementation of the "
+            "Levy-copula rectangle mass, dblquad of the Clayton joint density",
+            "Exploration: for generated 1-d chains the integration cells the code uses are captured and compared "
+            "with reference cells built from the axis alone (tiling, shared end points, truncation bounds, central "
+            "cell), every rate is compared with an independent quadrature of the density, rates are >= 0 and sum "
+            "to the reported intensity, and three routes to a state's rate agree. For copula chains (d=2,3; "
+            "Clayton incl. eta in {0,1}, independent, dependent; INVERSION and adapted tree) every state's rate, "
+            "the intensity and the 3^d-1 bucket masses are compared with a reference rectangle mass re-implemented "
+            "from Kallsen-Tankov over quadrature tail integrals; Clayton rectangles also against dblquad of the "
+            "joint density.",
+            "Reference copula formulas are re-typed from the papers (differential oracle, validated against "
+            "dblquad for Clayton d=2); grids small (<= 700 states in 2-d, <= 400 in 3-d); tolerance 1e-7 (1-d), "
+            "1e-6 relative + 2e-8 of the intensity (copula)."),
 }
 
 NOT_YET = "check not built yet in this session; will be claimed when its module exists"
